@@ -87,7 +87,7 @@ def node_eval(s):
     return dag.evalf(node_of(s), {}, mpmath.mp)
 
 
-def make_replay(type_mom, order, dim, npts, ncen, atomgrid=False):
+def make_replay(type_mom, order, dim, npts, ncen, atomgrid=False, coincide=False):
     def replay(m):
         bg, ut = _mods()
         with unpatched(bg, ut):
@@ -96,6 +96,8 @@ def make_replay(type_mom, order, dim, npts, ncen, atomgrid=False):
             W = np.array([g(f"w{i}", 1.0 + i) for i in range(npts)])
             F = np.array([g(f"f{i}", 0.5 + i) for i in range(npts)])
             C = np.array([[g(f"c{j}_{a}", 0.1 * j + 0.05 * a) for a in range(dim)] for j in range(ncen)])
+            if coincide:
+                C[0] = P[0]          # the first centre sits exactly on the first grid point
             info = dict(type_mom=type_mom, order=order, dim=dim, points=P.tolist(), weights=W.tolist(), f=F.tolist(), centers=C.tolist())
             try:
                 if atomgrid:
@@ -118,11 +120,11 @@ def make_replay(type_mom, order, dim, npts, ncen, atomgrid=False):
                 for k, row in enumerate(exp_orders):
                     want[k, j] = sum(W[i] * F[i] * float_basis(type_mom, row, P[i] - C[j]) for i in range(npts))
             info.update(returned=np.asarray(got).tolist(), direct_quadrature=want.tolist())
-            return (np.asarray(got).shape != want.shape) or (not np.allclose(got, want, rtol=1e-8, atol=1e-10)), info
+            return (np.asarray(got).shape != want.shape) or (not np.allclose(got, want, rtol=1e-8, atol=1e-10, equal_nan=False)), info
     return replay
 
 
-def job_moments(ctx: Ctx, type_mom, order, dim, npts, ncen, atomgrid=False):
+def job_moments(ctx: Ctx, type_mom, order, dim, npts, ncen, atomgrid=False, coincide=False):
     bg, ut = _mods()
     npproxy.install(bg)
     npproxy.install(ut)
@@ -136,9 +138,12 @@ def job_moments(ctx: Ctx, type_mom, order, dim, npts, ncen, atomgrid=False):
     W = arr([real(f"w{i}") for i in range(npts)])
     F = arr([real(f"f{i}") for i in range(npts)])
     C = arr([real(f"c{j}_{a}") for j in range(ncen) for a in range(dim)], (ncen, dim))
-    ctx.bounds.update(dict(type=type_mom, order=order, dim=dim, points=npts, centres=ncen))
+    if coincide:
+        for a in range(dim):
+            C[0, a] = P[0, a]        # a centre that is bit for bit one of the grid points (r = 0 for that pair)
+    ctx.bounds.update(dict(type=type_mom, order=order, dim=dim, points=npts, centres=ncen, centre_on_grid_point=coincide))
     key = f"moments:{type_mom}:{dim}d" + (":AtomGrid" if atomgrid else "")
-    R = make_replay(type_mom, order, dim, npts, ncen, atomgrid)
+    R = make_replay(type_mom, order, dim, npts, ncen, atomgrid, coincide)
     exp_orders = expected_orders(order, type_mom, dim)
 
     def mkgrid(pts, w, ctr_):
@@ -180,6 +185,9 @@ def job_moments(ctx: Ctx, type_mom, order, dim, npts, ncen, atomgrid=False):
                         else:
                             b = rr ** row[0] * solid_harmonic(row[1], abs(row[2]), "c" if row[2] >= 0 else "s", *d)
                     tot = tot + W[i] * F[i] * b
+                if isinstance(got[k, j], sym.NaNMarker):
+                    ctx.fail(f"row {row} about centre {j} is a number", "NaN", key=key + ":nan", replay=R, model=ctx.model_for(p.pc) or {})
+                    continue
                 ctx.eq(f"row {row} about centre {j} == sum_i w_i f_i basis(r_i - R)", got[k, j], tot, p.pc, replay=R, key=key)
 
 
@@ -294,6 +302,8 @@ def jobs(tier):
     js.append(Job("pure/atomgrid", job_moments, "pure", 1, 3, 1, 1, True))
     js.append(Job("cartesian/atomgrid", job_moments, "cartesian", 1, 3, 2, 2, True))
     js.append(Job("pure-radial/atomgrid", job_moments, "pure-radial", 1, 3, 1, 1, True))
+    for t in ("pure", "pure-radial", "radial", "cartesian"):
+        js.append(Job(f"{t}/3d/centre-on-grid-point", job_moments, t, 1, 3, 2, 1, False, True))
     js.append(Job("dipole", job_dipole))
     for t in ("cartesian", "radial", "pure", "pure-radial"):
         js.append(Job(f"history/{t}", job_history, t, 1 if tier == "quick" else 2))
